@@ -275,3 +275,37 @@ impl RngCore for SharedChoice {
         Ok(())
     }
 }
+
+/// A fair stream salted with extreme words (all ones / all zeros), each with probability 1/8: for
+/// machines with deterministic sampling no word may matter, so extreme words must not either.
+#[derive(Clone, Debug)]
+pub struct NoisyRng {
+    pub inner: Xo,
+}
+
+impl NoisyRng {
+    pub fn new(seed: u64) -> Self {
+        NoisyRng { inner: xo(seed) }
+    }
+}
+
+impl RngCore for NoisyRng {
+    fn next_u32(&mut self) -> u32 {
+        (self.next_u64() >> 32) as u32
+    }
+    fn next_u64(&mut self) -> u64 {
+        let w = self.inner.next_u64();
+        match w & 7 {
+            0 => u64::MAX,
+            1 => 0,
+            _ => self.inner.next_u64(),
+        }
+    }
+    fn fill_bytes(&mut self, dest: &mut [u8]) {
+        impls::fill_bytes_via_next(self, dest)
+    }
+    fn try_fill_bytes(&mut self, dest: &mut [u8]) -> Result<(), Error> {
+        self.fill_bytes(dest);
+        Ok(())
+    }
+}
